@@ -72,6 +72,25 @@ def build(path, src='/repo/src'):
     with open(path, 'w') as out:
         for w in sorted(words):
             out.write(json.dumps(w) + '\n')
+    # integer literals of the source (decimal, 0x, 0o, with _ separators and type suffixes): a count or a
+    # length the code treats specially is written there; the recorders use them, and them +-1, as counts
+    nums = set()
+    for f in glob.glob(src + '/**/*.rs', recursive=True):
+        try:
+            txt = open(f, encoding='utf-8', errors='replace').read()
+        except OSError:
+            continue
+        for m in re.finditer(r'(?<![\w.])(0x[0-9a-fA-F_]+|0o[0-7_]+|0b[01_]+|[0-9][0-9_]*)(?:u8|u16|u32|u64|usize|i32|i64)?(?![\w.])', txt):
+            t = m.group(1).replace('_', '')
+            try:
+                v = int(t, 0) if t[:2] in ('0x', '0o', '0b') else int(t)
+            except ValueError:
+                continue
+            if v < (1 << 64):
+                nums.update({v, v + 1, max(v - 1, 0)})
+    with open(path + '.nums', 'w') as out:
+        for v in sorted(nums):
+            out.write('%d\n' % v)
     return path
 
 
